@@ -20,14 +20,35 @@ def main():
     def dies(h):
         return any(len(s["liveR"]) < len(p["liveR"]) for p, s in zip(h, h[1:]))
     hs, total = sgcommon.histories(ctx, "SymbolGraph_gen_c20t.cfg" if thorough else "SymbolGraph_gen_c20.cfg", dies,
-                                   12000 if thorough else 6000)
+                                   12000 if thorough else 4000)
     ctx.cov["histories_in_bound_with_a_death"] = total
     cases = [{"mode": "c14", "h": h} for h in hs]
     loops = [h for h in hs if not any(s["a"] in ("query", "queryx", "queryfirst") for s in h)]
+    # loop bodies proper: histories of create / relate / drop / collect / sweep without queries (SymbolGraph_gen_c14.cfg)
+    noq, _ = sgcommon.histories(ctx, "SymbolGraph_gen_c14.cfg",
+                                lambda h: any(s["a"] == "relate" for s in h) and not any(s["a"] in ("query", "queryx", "queryfirst", "clear") for s in h),
+                                3000 if thorough else 1200)
+    loops = loops + noq
     loop_cases = [{"mode": "c20", "h": h, "loops": 3, "end": ("sweep" if i % 2 == 0 else "evaluate"), "events": False}
                   for i, h in enumerate(loops[: (3000 if thorough else 1500)])]
     results = replay("sg", cases + loop_cases)
     ctx.replayed = len(cases) + len(loop_cases)
+    # the same loop over Ontology.tla behaviours (roles, role takers, inverse / transitive / super-property inference)
+    import random
+    rnd = random.Random(ctx.seed + 20)
+    onto_cases = []
+    for model in ("univ", "family", "geo"):
+        ob = [h for h in ctx.run_tlc("Ontology", f"Ontology_gen_{model}.cfg", expect="ok").json_lines() if isinstance(h, list)]
+        ob.sort(key=repr)
+        if model == "univ":
+            ob = [h for h in ob if any(s["f"][0] == "head_of" for s in h)][: (1500 if thorough else 300)] + rnd.sample(ob, 1500 if thorough else 300)
+        else:
+            ob = rnd.sample(ob, 1500 if thorough else 300)
+        for i, h in enumerate(ob):
+            onto_cases.append({"mode": "loop", "model": model, "h": h, "loops": 3, "end": ("sweep" if i % 2 == 0 else "evaluate"),
+                               "form": ("elem", "assign")[i % 2]})
+    onto_results = replay("onto", onto_cases)
+    ctx.replayed += len(onto_cases)
     for c, r in zip(cases, results):
         bad = None
         f24 = False
@@ -49,7 +70,7 @@ def main():
                           note="an instance is alive (or dead) although neither the property nor the recorded finding explains it")
         elif f24:
             ctx.known_finding("C20-F24", {"history": c["h"]})
-    for c, r in zip(loop_cases, results[len(cases):]):
+    for c, r in list(zip(loop_cases, results[len(cases):])) + list(zip(onto_cases, onto_results)):
         g = r["growth"]
         problems = []
         if any(x["alive_after_discard"] for x in g):
@@ -58,16 +79,19 @@ def main():
             problems.append(f"symbol graph keeps nodes of discarded instances: {[x['nodes'] for x in g]}")
         if g[1]["relations"] != g[2]["relations"]:
             problems.append(f"symbol graph keeps relations of discarded instances: {[x['relations'] for x in g]}")
+        if g[1].get("footprint") != g[2].get("footprint"):
+            problems.append(f"bookkeeping containers of the symbol graph grow per loop iteration: {[x.get('footprint') for x in g]} entries")
         grow = {t: (g[1]["krrood"].get(t, 0), g[2]["krrood"].get(t, 0)) for t in set(g[1]["krrood"]) | set(g[2]["krrood"])
                 if g[1]["krrood"].get(t, 0) != g[2]["krrood"].get(t, 0)}
         known_growth = False
         if grow:
             delta = {t: b - a for t, (a, b) in grow.items()}
-            if c["end"] == "evaluate" and delta == r.get("end_query_footprint"):
+            if c["end"] == "evaluate" and (delta == r.get("end_query_footprint")):
                 known_growth = True      # exactly the expression nodes of the one query that ended the iteration (F24)
             else:
                 problems.append(f"krrood-held objects grow per loop iteration: {grow}")
-        key = ["loop", c["end"], [(s["a"], s.get("c", s.get("o", s.get("p")))) for s in c["h"]]]
+        key = (["loop", c["end"], [(s["a"], s.get("c", s.get("o", s.get("p")))) for s in c["h"]]] if c["mode"] == "c20"
+               else ["ontology-loop", c["model"], c["end"], c["form"], [s["f"] for s in c["h"]]])
         ctx.case(key, True)
         if known_growth and not problems:
             ctx.known_finding("C20-F24", {"loop_body": c["h"], "growth": grow})
@@ -75,7 +99,9 @@ def main():
             ctx.violation({"loop_body": c["h"], "end_of_iteration": c["end"], "problems": problems, "measurements": g},
                           note="create/relate/discard loop grows a krrood-held structure")
     ctx.cov["loop_bodies"] = len(loop_cases)
+    ctx.cov["ontology_loop_bodies"] = len(onto_cases)
     ctx.assumptions = ["CPython reference counting with gc disabled; gc.collect() only where the history says so",
                        "growth is measured as the census of live objects whose type is defined in a krrood.* module "
-                       "(gc.get_objects), the number of graph nodes and of relations - no private attribute is named"]
+                       "(gc.get_objects), the number of graph nodes and of relations, and the number of entries in the builtin containers "
+                       "reachable from the SymbolGraph singleton - no private attribute is named"]
     return ctx.finish()
